@@ -36,7 +36,7 @@ m = {"version": 1,
      "setup_cmd": "./check --setup",
      "hooks": {"guard": "--cfg gmsol_verif",
                "enable": "harness/.cargo/config.toml sets rustflags --cfg gmsol_verif (with --check-cfg); every check runs cargo build in /verif/harness against /repo's working tree",
-               "baseline_off_cmd": "cd /repo && cargo nextest run --workspace --no-fail-fast --offline || cargo test --workspace --no-fail-fast --offline",
+               "baseline_off_cmd": "cd /repo && cargo nextest run --workspace --no-fail-fast --offline --test-threads 8",
                "source_commits": hooks.get("source_commits", []),
                "add_only": True},
      "engines": [
@@ -45,7 +45,7 @@ m = {"version": 1,
          {"name": "harness", "path": "/verif/harness", "serves_properties": [c["property_id"] for c in checks],
           "kind_free_text": "Rust drivers (own cargo workspace, path deps on /repo) that replay TLC-generated behaviours into the real code and record traces"}],
      "checks": checks,
-     "notes": "One CLI: ./check Cxx --tier quick|thorough. Exit 0 held / 1 VIOLATION / 2 tool error. Known findings in known_findings.json.",
+     "notes": "One CLI: ./check Cxx --tier quick|thorough. Exit 0 held / 1 VIOLATION / 2 tool error. Known findings in known_findings.json (5 fixed by fix: commits in /repo, 19 open design-level findings). baseline_off_cmd runs the repository suite without --cfg gmsol_verif: 195 pass; the 8 network tests listed as always_fail in BASELINE.json fail offline. DESIGN.md section 13 describes what was built; seeded/ holds 159 independent seeded changes and 42 property-preserving negative controls.",
      "not_applicable": na}
 json.dump(m, open(os.path.join(V, "MANIFEST.json"), "w"), indent=1)
 print("claimed", len(checks), "not claimed", len(na))
